@@ -42,3 +42,30 @@ pub fn current_key(core: &CryptoCore) -> usize {
 }
 
 pub use super::{create_dummy_pair, CryptoCore};
+
+use std::cell::RefCell;
+thread_local! {
+    static SEAL_LOG: RefCell<Vec<([u8; 8], [u8; 12])>> = RefCell::new(Vec::new());
+}
+
+/// fingerprint of key material: tag of sealing nothing under the all-ones nonce (never used by traffic:
+/// real nonces start with 0x00 or 0x80 followed by zero bytes)
+pub fn key_fingerprint(key: &LessSafeKey) -> [u8; 8] {
+    let mut empty: [u8; 0] = [];
+    let tag = key
+        .seal_in_place_separate_tag(aead::Nonce::assume_unique_for_key([0xff; 12]), aead::Aad::empty(), &mut empty)
+        .expect("fingerprint");
+    let mut fp = [0u8; 8];
+    fp.copy_from_slice(&tag.as_ref()[..8]);
+    fp
+}
+
+/// called from CryptoCore::encrypt (guarded line in src/crypto/core.rs)
+pub fn log_seal(key: &LessSafeKey, nonce: &[u8; 12]) {
+    let fp = key_fingerprint(key);
+    SEAL_LOG.with(|l| l.borrow_mut().push((fp, *nonce)));
+}
+
+pub fn take_seal_log() -> Vec<([u8; 8], [u8; 12])> {
+    SEAL_LOG.with(|l| std::mem::take(&mut *l.borrow_mut()))
+}
